@@ -126,6 +126,9 @@ KF_CloseBehindBlockedReceiver ==
     /\ "C13-close-behind-blocked-receiver" \in Acknowledged
     /\ IsEvent("Hung") /\ E.id \in DOMAIN calls /\ calls[E.id].call \in {"close", "connclose"}
     /\ \/ \E i \in calls[E.id].blockers : calls[i].st = "pending" /\ ~CtxGone(calls[i])   \* that receiver is still blocked
+       \* or the blocked receiver is the logout wait of another, concurrent Close on channel 0
+       \/ (LogoutRunning /\ Cardinality({i \in DOMAIN calls : calls[i].st = "pending" /\ calls[i].call \in {"close", "connclose"}}) >= 2)
+       \/ closeHung            \* or another Close already hangs for an acknowledged reason (this one queues behind it)
        \/ PendingRecvLive      \* or one is blocked now (packages sent after Close began to wait cannot reach it:
                                \* the waiting writer also keeps the reader goroutine from taking the read lock)
     /\ KFUsed("C13-close-behind-blocked-receiver", l)
